@@ -211,6 +211,38 @@ def run(tier):
     res.require('dl_frequency' in txt + str([term_str(term_of_operand(bch, a)) for bb, t in bch.calls() for a in t.args]) and 'frequency' in txt + str([term_str(term_of_operand(bch, a)) for bb, t in bch.calls() for a in t.args]),
                 'C10:Channel::rx1_frequency', 'dynamic-plan RX1 frequency is not dl_frequency (DlChannelReq) else the uplink frequency', bch.body.path, 'SHAPE(dl_frequency.unwrap_or(frequency))',
                 instance='Channel::rx1_frequency = dl_frequency or frequency')
+    # DlChannelReq: the RX1 frequency of a channel becomes the commanded one (or is reset when it equals the uplink frequency)
+    bf = c.bf('<' + D + 'region::dynamic_channel_plans::DynamicChannelPlan<R> as ' + D + 'region::RegionHandler>::channel_dl_update')
+    st = [(bb, si, s, root) for bb, si, s, root, path in bf.field_writes() if path[-1:] == ['dl_frequency']]
+    if len(st) != 1:
+        raise CheckError('anchor: channel_dl_update stores dl_frequency %d times' % len(st))
+    bb, si, s, root = st[0]
+    freq_p = param_by_name(bf.body, 'freq')
+    v = term_of_operand(bf, s.rv.ops[0]) if s.rv.k == 'use' else None
+    okd = v is not None and v[0] == 'phi'
+    kinds = []
+    if okd:
+        for dv, cs, dbb in rules.defs_with_conditions(bf, v[1]):
+            eq = [x for x in cs if isinstance(x[0], tuple) and x[0][0] == 'Eq']
+            is_reset_cmp = bool(eq) and eq[-1][0][1] == ('param', freq_p) and isinstance(eq[-1][0][2], tuple) and eq[-1][0][2][0] == 'field' and eq[-1][0][2][2] == 'frequency' and \
+                peel(eq[-1][0][2][1]) == ('phi', root)
+            if dv[0] == 'agg' and dv[1].endswith('Option::None'):
+                kinds.append('reset' if is_reset_cmp and rules.cond_true(eq[-1]) else 'bad-none')
+            elif dv[0] == 'agg' and dv[1].endswith('Option::Some') and dv[2][0][1] == ('param', freq_p):
+                kinds.append('set' if is_reset_cmp and rules.cond_false(eq[-1]) else 'bad-some')
+            else:
+                kinds.append('other')
+    res.require(okd and sorted(kinds) == ['reset', 'set'], 'C10:channel_dl_update:dl-frequency-value',
+                'DlChannelReq does not store dl_frequency = None if freq == the channel\'s uplink frequency else Some(freq): %s' % kinds, short_site(bf, bb, si),
+                'PROVENANCE(dl_frequency)', instance='DlChannelReq: dl_frequency = Some(commanded) (None when equal to the uplink frequency)')
+    # and the modified copy is written back to the slot it was read from
+    wb = [(b2, s2) for b2, si2, s2, r2, p2 in bf.field_writes() if p2[:1] == ['channels']]
+    okw = len(wb) == 1 and wb[0][1].rv.k == 'use'
+    if okw:
+        wv = term_of_operand(bf, wb[0][1].rv.ops[0])
+        okw = wv[0] == 'agg' and wv[1].endswith('Option::Some') and wv[2][0][1] == ('phi', root)
+    res.require(okw, 'C10:channel_dl_update:write-back', 'the updated channel is not written back to the plan', bf.body.path, 'SAME-VALUE(channel written back)',
+                instance='DlChannelReq: channels[index] = Some(updated channel)')
     # ------------------------------------------------------------------ (c) timing
     bf = c.bf(D + 'mac::Mac::get_rx_delay')
     frame_p, win_p = 2, 3
